@@ -213,6 +213,7 @@ pub struct UidInfo {
 pub struct RefState {
     pub dump: String,
     pub sv: Vec<(u64, u32)>,
+    pub ds: Vec<(u64, Vec<(u32, u32)>)>,
 }
 
 #[derive(Default, Clone, Debug, Serialize, Deserialize)]
@@ -376,6 +377,28 @@ pub fn doc_dump(doc: &Doc) -> String {
 pub fn doc_sv(doc: &Doc) -> Vec<(u64, u32)> {
     let txn = doc.transact();
     sv_vec(&txn.state_vector())
+}
+
+/// the deleted clock ranges of a replica, per client, sorted and merged
+pub fn doc_ds(doc: &Doc) -> Vec<(u64, Vec<(u32, u32)>)> {
+    let ds = doc.transact().snapshot().delete_set;
+    let mut out: Vec<(u64, Vec<(u32, u32)>)> = Vec::new();
+    for (client, ranges) in ds.iter() {
+        let mut v: Vec<(u32, u32)> = ranges.iter().map(|r| (r.start, r.end)).filter(|(a, b)| b > a).collect();
+        v.sort();
+        let mut m: Vec<(u32, u32)> = Vec::new();
+        for (a, b) in v {
+            match m.last_mut() {
+                Some(l) if a <= l.1 => l.1 = l.1.max(b),
+                _ => m.push((a, b)),
+            }
+        }
+        if !m.is_empty() {
+            out.push((client.get(), m));
+        }
+    }
+    out.sort();
+    out
 }
 
 pub fn sv_vec(sv: &StateVector) -> Vec<(u64, u32)> {
@@ -551,6 +574,7 @@ impl World {
         let r = Rc::new(RefState {
             dump: doc_dump(&doc),
             sv: doc_sv(&doc),
+            ds: doc_ds(&doc),
         });
         self.refs.insert(key, r.clone());
         Ok(r)
